@@ -32,6 +32,9 @@ pub fn c03_scheme_glue(sk: &SecretKey, scheme: SignatureSchemes, msg: &[u8])
     // PopProve hashes the encoded public key under the POP tag
     let pop = BlsSignaturePop__pop_prove(&sk.0);
     assert(sk.0.val() != 0 ==> pop is Ok && pop->Ok_0 == sig_mul(hp(pk_enc(pk.0), DST_POP_PROOF()), sk.0));
+    // ... and so does the public wrapper
+    let pop2 = sk.proof_of_possession();
+    assert(sk.0.val() != 0 ==> pop2 is Ok && pop2->Ok_0.0 == sig_mul(hp(pk_enc(pk.0), DST_POP_PROOF()), sk.0));
 }
 pub fn c03_keygen_salt(seed: &[u8])
 {
